@@ -45,6 +45,7 @@ var (
 	NoSignaturesErr          = cashu.Error{Detail: "no signatures provided in witness", Code: NUT11ErrCode}
 	AllSigAllFlagsErr        = cashu.Error{Detail: "all flags must be SIG_ALL", Code: NUT11ErrCode}
 	SigAllKeysMustBeEqualErr = cashu.Error{Detail: "all public keys must be the same for SIG_ALL", Code: NUT11ErrCode}
+	SigAllCondsMustEqualErr  = cashu.Error{Detail: "kind, data and tags must be the same in all inputs for SIG_ALL", Code: NUT11ErrCode}
 	SigAllOnlySwap           = cashu.Error{Detail: "SIG_ALL can only be used in /swap operation", Code: NUT11ErrCode}
 	NSigsMustBeEqualErr      = cashu.Error{Detail: "all n_sigs must be the same for SIG_ALL", Code: NUT11ErrCode}
 )
